@@ -265,3 +265,9 @@ class Result:
         print("OK property=%s tier=%s obligations=%d/%d evaluations=%d wall=%.1fs" % (
             self.pid, self.tier, self.discharged, self.obligations, self.evaluations, time.time() - self.t0), flush=True)
         return 0
+
+
+def error_codes():
+    """ddperror code table regenerated by the translator (lean/DDP/Generated/Codes.json)"""
+    with open(os.path.join(LEAN, "DDP", "Generated", "Codes.json")) as f:
+        return json.load(f)
